@@ -110,12 +110,16 @@ type xState struct {
 	stmts   map[string]*xStmt
 	portals map[string]*xPortal
 	skip    bool
+	// pol: what a Sync does to the portals of this connection, once a Sync has been seen to do it
+	// (0 = not seen yet, 1 = keeps them, 2 = destroys them all, 3 = destroys the unnamed one).
+	// Which of the three the server does is left open; that it does the same at every Sync is not.
+	pol int
 }
 
 func newXState() *xState { return &xState{stmts: map[string]*xStmt{}, portals: map[string]*xPortal{}} }
 
 func (s *xState) clone() *xState {
-	n := &xState{stmts: map[string]*xStmt{}, portals: map[string]*xPortal{}, skip: s.skip}
+	n := &xState{stmts: map[string]*xStmt{}, portals: map[string]*xPortal{}, skip: s.skip, pol: s.pol}
 	for k, v := range s.stmts {
 		n.stmts[k] = v
 	}
@@ -134,7 +138,7 @@ func (s *xState) key() string {
 		parts = append(parts, fmt.Sprintf("p%s=%d", k, v.BindID))
 	}
 	sort.Strings(parts)
-	return fmt.Sprintf("%v|%s", s.skip, strings.Join(parts, ","))
+	return fmt.Sprintf("%v%d|%s", s.skip, s.pol, strings.Join(parts, ","))
 }
 
 // xExp is one admissible outcome of a message.
@@ -351,16 +355,23 @@ func badFormats(f []int16) bool {
 func syncOutcomes(s *xState) []xExp {
 	n := s.clone()
 	n.skip = false
-	out := []xExp{{reply: []expMsg{{T: 'Z'}}, next: n}}
-	if len(n.portals) > 0 {
-		n2 := n.clone()
-		n2.portals = map[string]*xPortal{}
-		out = append(out, xExp{reply: []expMsg{{T: 'Z'}}, next: n2})
-		if n.portals[""] != nil && len(n.portals) > 1 {
-			n3 := n.clone()
-			delete(n3.portals, "")
-			out = append(out, xExp{reply: []expMsg{{T: 'Z'}}, next: n3})
+	if len(n.portals) == 0 {
+		return []xExp{{reply: []expMsg{{T: 'Z'}}, next: n}}
+	}
+	var out []xExp
+	for pol := 1; pol <= 3; pol++ {
+		if s.pol != 0 && s.pol != pol {
+			continue
 		}
+		nx := n.clone()
+		nx.pol = pol
+		switch pol {
+		case 2:
+			nx.portals = map[string]*xPortal{}
+		case 3:
+			delete(nx.portals, "")
+		}
+		out = append(out, xExp{reply: []expMsg{{T: 'Z'}}, next: nx})
 	}
 	return out
 }
